@@ -136,6 +136,7 @@ type Sorts struct {
 	structs map[string]*structInfo
 	typeIDs map[string]int
 	arrays  map[string]bool
+	zarr    map[string]string
 	qual    types.Qualifier
 }
 
@@ -265,7 +266,7 @@ func (so *Sorts) zero(t types.Type) Term {
 		}
 		return app(s, si.ctor, args...)
 	case *types.Array:
-		return Term{fmt.Sprintf("((as const %s) %s)", s, so.zero(u.Elem()).S), s}
+		return so.constArray(s, so.zero(u.Elem()))
 	}
 	return zeroOfSort(s)
 }
@@ -279,9 +280,9 @@ func zeroOfSort(s string) Term {
 	case "Str":
 		return Term{"sempty", s}
 	case "Slice":
-		return Term{"nilslice", s}
+		return Term{"(mk_slice 0 0 0 0)", s}
 	case "Iface":
-		return Term{"nilif", s}
+		return Term{"(mk_iface 0 0)", s}
 	case "Real":
 		return Term{"0.0", s}
 	}
@@ -422,4 +423,20 @@ func sortedKeys[V any](m map[string]V) []string {
 	}
 	sort.Strings(ks)
 	return ks
+}
+
+// constArray: a constant array; for element terms that are not SMT values (Str) a named
+// constant with a quantified defining axiom is used instead of (as const ...).
+func (so *Sorts) constArray(arrSort string, elem Term) Term {
+	if !strings.Contains(elem.S, "sempty") {
+		return Term{fmt.Sprintf("((as const %s) %s)", arrSort, elem.S), arrSort}
+	}
+	name := "zarr_" + sanitize(arrSort)
+	if so.zarr == nil {
+		so.zarr = map[string]string{}
+	}
+	if _, ok := so.zarr[name]; !ok {
+		so.zarr[name] = fmt.Sprintf("(declare-const %s %s)\n(assert (forall ((k Int)) (! (= (select %s k) %s) :pattern ((select %s k)))))", name, arrSort, name, elem.S, name)
+	}
+	return Term{name, arrSort}
 }
